@@ -32,7 +32,8 @@ def water(r=0.96, ang=104.5):
 
 def mol_spec(pr, rng, max_active_sos=8, allow_uhf=True, allow_frozen=True, kinds=None):
     """Random small-molecule specification: dict(xyz, q, spin, basis, frozen, uhf, label)."""
-    kinds = kinds or ["H2", "H2", "H3+", "H3", "H4", "H4", "H4+", "H2_321g", "LiH", "H2O", "H4ring", "H4cluster", "H3cluster+"]
+    kinds = kinds or ["H2", "H2", "H3+", "H3", "H4", "H4", "H4+", "H2_321g", "LiH", "H2O", "H4ring", "H4cluster", "H3cluster+",
+                      "H4_triplet_frozen", "H2O_triplet_frozen", "OH_uhf_split_frozen", "H2O+_uhf_split_frozen"]
     for _ in range(50):
         k = pr.choice(kinds)
         basis, q, spin, frozen = "sto-3g", 0, 0, None
@@ -64,7 +65,29 @@ def mol_spec(pr, rng, max_active_sos=8, allow_uhf=True, allow_frozen=True, kinds
         elif k == "H2O":
             xyz = water(pr.uniform(0.9, 1.1), pr.uniform(95, 115))
             frozen = pr.choice([[0, 1, 2], [0, 1, 6], [0, 1, 2, 3], [0, 1, 5]])
-        uhf = allow_uhf and pr.random() < 0.25
+        elif k == "H4_triplet_frozen":
+            # high-spin reference with frozen orbitals (complete-active-space branch of the classical solver); the singlet lies lower
+            xyz, spin = chain(4, pr.uniform(0.8, 1.2)), 2
+            frozen = pr.choice([[3], [2]])
+        elif k == "H2O_triplet_frozen":
+            xyz, spin = water(pr.uniform(0.9, 1.1), pr.uniform(95, 115)), 2
+            frozen = pr.choice([[0, 1, 6], [0, 1, 5]])
+        elif k == "OH_uhf_split_frozen":
+            # spin-polarised UHF reference whose frozen occupied sets differ between alpha and beta
+            xyz, spin = [("O", (0.0, 0.0, 0.0)), ("H", (0.0, 0.0, pr.uniform(0.9, 1.1)))], 1
+            frozen = pr.choice([[[0, 1], [0, 5]], [[0, 5], [0, 1]], [[0, 1], [0, 4]]])
+            spec = {"label": k, "xyz": xyz, "q": 0, "spin": spin, "basis": "sto-3g", "frozen": frozen, "uhf": True}
+            if not allow_uhf:
+                continue
+            return spec
+        elif k == "H2O+_uhf_split_frozen":
+            xyz, spin, q = water(pr.uniform(0.9, 1.1), pr.uniform(95, 115)), 1, 1
+            frozen = pr.choice([[[0, 1, 6], [0, 5, 6]], [[0, 1, 5], [0, 2, 6]]])
+            spec = {"label": k, "xyz": xyz, "q": q, "spin": spin, "basis": "sto-3g", "frozen": frozen, "uhf": True}
+            if not allow_uhf:
+                continue
+            return spec
+        uhf = allow_uhf and pr.random() < 0.25 and k not in ("H4_triplet_frozen", "H2O_triplet_frozen")
         if allow_frozen and frozen is None and pr.random() < 0.3 and k in ("H4", "H4ring", "H4cluster", "H2_321g", "H3+", "H4+"):
             nmo = {"H4": 4, "H4ring": 4, "H4cluster": 4, "H2_321g": 4, "H3+": 3, "H4+": 4}[k]
             nocc = {"H4": 2, "H4ring": 2, "H4cluster": 2, "H2_321g": 1, "H3+": 1, "H4+": 2}[k]
